@@ -107,7 +107,8 @@ struct OneShot {
                         st->next_out = so->data;
                         st->avail_out = (uint32_t) ao;
                         st->flush = (uint16_t) flush;
-                        st->end_of_stream = eos ? 1 : 0;
+                        // with NO_FLUSH the one-shot call ends the stream whatever end_of_stream says on entry (ordinary use leaves it 0)
+                        st->end_of_stream = (eos && !(flush == NO_FLUSH && plan.geti("eos_unset"))) ? 1 : 0;
                         // ---- invalid-parameter injection (documented refusals)
                         bool injected = false;
                         if (inv_kind && last) {
@@ -285,7 +286,7 @@ static Json gen_oneshot(Rng &r0, const std::string &focus, int tier)
                 for (int i = 0; i < k; i++)
                         ch.push((uint32_t) (r.chance(1, 6) ? 0 : r.logsize((uint64_t) data.geti("n") + 1)));
         }
-        p.set("chain", ch).set("last_flush", (int) (chain ? r.below(2) : r.chance(1, 6)));
+        p.set("chain", ch).set("last_flush", (int) (chain ? r.below(2) : r.chance(1, 6))).set("eos_unset", (int) r.below(2));
         int64_t delta;
         uint64_t c = r.below(10);
         uint32_t bound = deflate_bound((uint32_t) data.geti("n"), wrap);
